@@ -22,10 +22,11 @@ Thorough == Tier = "thorough"
 
 (* atoms outside ASCII are written {U+XXXX} (see MC_Syntax.tla); the checker puts the characters in *)
 AtomCodesDef ==
-    [s \in {"a", "b", "ab", "B", "a b", "{U+00E9}", "{U+65E5}", "z", "10", "a{U+00E9}", "f", "g", "h", "noun_phrase",
+    [s \in {"a", "b", "ab", "B", "a b", "{U+00E9}", "{U+65E5}", "z", "10", "9", "07", "a{U+00E9}", "f", "g", "h", "noun_phrase",
             "np4", "noun*", "no*", "*", "f*", "x*", "fg*", "c", "d", "x"} |->
        CASE s = "a" -> <<97>> [] s = "b" -> <<98>> [] s = "ab" -> <<97, 98>> [] s = "B" -> <<66>>
          [] s = "a b" -> <<97, 32, 98>> [] s = "{U+00E9}" -> <<233>> [] s = "{U+65E5}" -> <<26085>>
+         [] s = "9" -> <<57>> [] s = "07" -> <<48, 55>>
          [] s = "z" -> <<122>> [] s = "10" -> <<49, 48>> [] s = "a{U+00E9}" -> <<97, 233>>
          [] s = "f" -> <<102>> [] s = "g" -> <<103>> [] s = "h" -> <<104>>
          [] s = "noun_phrase" -> <<110, 111, 117, 110, 95, 112, 104, 114, 97, 115, 101>>
@@ -51,12 +52,12 @@ Ints   == {IntT(0), IntT(1), IntT(-1), IntT(2), IntE(1, 62), IntE(-1, 63), IntE(
 Flts   == {Flt(0, 0), FltS("-0"), Flt(1, 0), Flt(-1, 0), Flt(1, -1), Flt(3, -1), Flt(-3, -1),
            Flt(1, 62), Flt(1, -20), Flt(5, -2), Flt(1, 40), Flt(1, 64), Flt(-1, 64), Flt(1, 70), Flt(-1, 63), Flt(1, 63)}
 Atoms  == {a, b, Atom("ab"), Atom("B"), Atom("a b"), Atom("{U+00E9}"), Atom("{U+65E5}"), Atom("z"),
-           Atom("10"), Atom("a{U+00E9}")}
+           Atom("10"), Atom("9"), Atom("07"), Atom("a{U+00E9}")}
 NonC   == {Y, Cx("f", <<a>>), Lst(<<a>>), Anon, EmptyList}
 Oprs   == Ints \cup Flts \cup Atoms \cup NonC
 OprsQ  == {IntT(0), IntT(1), IntT(-1), IntE(1, 62), IntE(-1, 63), Flt(0, 0), FltS("-0"), Flt(1, 0),
            Flt(3, -1), Flt(-3, -1), Flt(1, 62), Flt(-1, 64), Flt(1, 63), Flt(-1, 63), a, b, Atom("ab"), Atom("B"), Atom("a b"), Atom("{U+00E9}"),
-           Atom("10"), Y, Cx("f", <<a>>), Anon}
+           Atom("10"), Atom("9"), Y, Cx("f", <<a>>), Anon}
 CmpOprs == IF Thorough THEN Oprs ELSE OprsQ
 CmpCalls ==
        {[f |-> op, args |-> <<x, y>>, prior |-> NoPrior] : op \in CmpOps, x \in CmpOprs, y \in CmpOprs}
